@@ -36,6 +36,7 @@ import (
 	pairingtypes "github.com/lavanet/lava/v5/x/pairing/types"
 	spectypes "github.com/lavanet/lava/v5/x/spec/types"
 	"google.golang.org/grpc"
+	"google.golang.org/grpc/connectivity"
 	"google.golang.org/grpc/credentials"
 )
 
@@ -391,7 +392,33 @@ type sessSnap struct {
 	Lk  int    `json:"lk"`
 }
 
+// epHealthy: the provider object has an enabled endpoint with no refused connection attempts and an established,
+// usable connection in state Ready - GetSessions can use it without dialing (so a connect timeout under machine load
+// cannot be the reason for skipping this provider).  Caller holds o.Lock.
+func epHealthy(o *lavasession.ConsumerSessionsWithProvider) bool {
+	for _, ep := range o.Endpoints {
+		mu := (*sync.RWMutex)(unsafe.Pointer(reflect.ValueOf(ep).Elem().FieldByName("mu").UnsafeAddr()))
+		mu.RLock()
+		ok := ep.Enabled && ep.ConnectionRefusals == 0
+		good := false
+		for _, c := range ep.Connections {
+			conn, _ := fld(c, "connection").Interface().(*grpc.ClientConn)
+			disc := fld(c, "disconnected").Bool()
+			bl := fld(c, "blockListed").Addr().Interface().(*atomic.Bool).Load()
+			if c.Client != nil && conn != nil && !disc && !bl && conn.GetState() == connectivity.Ready {
+				good = true
+			}
+		}
+		mu.RUnlock()
+		if ok && good {
+			return true
+		}
+	}
+	return false
+}
+
 type objSnap struct {
+	Epok  bool       `json:"epok"`
 	P     string     `json:"p"`
 	E     uint64     `json:"e"`
 	Used  uint64     `json:"used"`
@@ -437,7 +464,7 @@ func (r *run) snapshot(tag string) ev {
 		for _, n := range names {
 			o := r.objs[ep][n]
 			o.Lock.RLock()
-			os := objSnap{P: n, E: ep, Used: clamp(o.UsedComputeUnits), Max: clamp(o.MaxComputeUnits), Sess: []sessSnap{}}
+			os := objSnap{P: n, E: ep, Used: clamp(o.UsedComputeUnits), Max: clamp(o.MaxComputeUnits), Sess: []sessSnap{}, Epok: epHealthy(o)}
 			os.Bstat = atomic.LoadUint32((*uint32)(unsafe.Pointer(fld(o, "blockedAndUsedWithChanceForRecoveryStatus").UnsafeAddr())))
 			for _, s := range o.Sessions {
 				r.sidMu.Lock()
